@@ -286,6 +286,21 @@ def run_join_case(ctx, idx, rng, tmp):
             ctx.ev("task_no_exception")
             ctx.count("joins_of_a_joined_file")
             case["joined_again"] = True
+        if len(paths) >= 2 and rng.random() < 0.5:
+            # the same file names hold other measurements now (a scratch directory that is
+            # re-populated): the contents rotate among the paths, then the task runs again in
+            # the same process
+            rot = sorted(paths)
+            hold = tmp / "rotating.tmp"
+            rot[0].rename(hold)
+            for a, b in zip(rot[1:], rot[:-1]):
+                a.rename(b)
+            hold.rename(rot[-1])
+            cli.join(paths_in=[paths[i] for i in rng.permutation(len(paths))],
+                     path_out=tmp / "joined_after_replacement.rtdc")
+            ctx.ev("task_no_exception")
+            ctx.count("joins_after_the_inputs_were_replaced")
+            case["inputs_replaced_and_joined_again"] = True
     except Exception as exc:
         import traceback
         ctx.ev("task_no_exception")
